@@ -97,7 +97,7 @@ class Env:
 
 
 def setup(ctx, ts, G, space, zero_first=True, tag="", max_summary=True, eps_sym=True,
-          build="bp", node_name=None, patch_core=False, scale=None):
+          build="bp", node_name=None, patch_core=False, scale=None, mu_div=None):
     """Context manager: patched modules + symbolic priors/likelihood for `ts`.
 
     build: "bp" (Likelihoods + BeliefPropagation built here), "method" (only priors; the
@@ -131,6 +131,8 @@ def setup(ctx, ts, G, space, zero_first=True, tag="", max_summary=True, eps_sym=
             env.timepoints = tp
             env.mu = sym("mu", "pos")
             env.eps = sym("eps", "pos") if eps_sym else 0
+            if mu_div is not None:      # genome coordinates * c (C07): mu/c only
+                env.mu = env.mu / mu_div
             if scale is not None:       # change of time unit (C06): t*c, eps*c, mu/c
                 env.mu = env.mu / scale
                 env.eps = env.eps * scale
